@@ -16,9 +16,11 @@ import (
 type Opts struct {
 	// ASCIIOnlyWhereBytesDiffer: known-finding exclusion
 	// strings.multibyte_where_bytes_differ.
-	ByteSafe       func() bool
-	Excluded       map[string]int
-	NoNulls        bool // never draw null at nullable positions
+	ByteSafe func() bool
+	Excluded map[string]int
+	NoNulls  bool // never draw null at nullable positions
+	// NoNullObjects: known-finding exclusion nulls.nullable_object_with_properties.
+	NoNullObjects  func() bool
 	AllProps       bool // include every optional property
 	NoProps        bool // omit every optional property
 	MaxArr         int
@@ -342,13 +344,19 @@ func validObject(t *rapid.T, n *model.Node, o *Opts, depth int) (jv.V, bool) {
 		}
 		rp := p.Node
 		if rp.Nullable && !o.NoNulls && rapid.IntRange(0, 9).Draw(t, "null") < 2 {
-			out.O = append(out.O, jv.KV{K: p.Name, V: jv.NullV()})
-			continue
+			if rp.Kind == model.KObject && len(rp.Props) > 0 && o.NoNullObjects != nil && o.NoNullObjects() {
+				if o.Excluded != nil {
+					o.Excluded["nulls.nullable_object_with_properties"]++
+				}
+			} else {
+				out.O = append(out.O, jv.KV{K: p.Name, V: jv.NullV()})
+				continue
+			}
 		}
 		v, ok := valid(t, p.Node, o, depth+1)
 		if !ok {
 			if req {
-				if rp.Nullable && !o.NoNulls {
+				if rp.Nullable && !o.NoNulls && !(rp.Kind == model.KObject && len(rp.Props) > 0 && o.NoNullObjects != nil && o.NoNullObjects()) {
 					out.O = append(out.O, jv.KV{K: p.Name, V: jv.NullV()})
 					continue
 				}
